@@ -29,28 +29,43 @@ REVS = [None, "2019-01-01", "2020-01-01", "2020-12-31", "2021-06-30"]
 # abstract module sets; a module = dict(name, rev, impl, groups=[[(fname, en)]], imports=[(name, rev|None)], extra)
 # ------------------------------------------------------------------------------------------------
 def enc_mod(m):
-    gs = ";".join("+".join("%s:%d" % (hexs(f), 1 if e else 0) for f, e in g) for g in m["groups"])
-    im = "+".join(hexs(n) + ("@" + hexs(r) if r else "") for n, r in m["imports"])
+    fd, ik = m.get("fdeps", {}), m.get("ikind", {})
+    gs = ";".join("+".join("%s:%d%s" % (hexs(f), 1 if e else 0, (":" + hexs(fd[f])) if f in fd else "") for f, e in g)
+                  for g in m["groups"])
+    im = "+".join(hexs(n) + ("@" + hexs(r) if r else "") + (("^" + ik[n]) if n in ik else "") for n, r in m["imports"])
     return "%s%s,%s,%d,%s,%s" % ("+" if m.get("extra") else "", hexs(m["name"]), hexs(m["rev"]) if m["rev"] else "-",
                                  1 if m["impl"] else 0, gs, im)
 
 
 def copy_set(ms):
-    return [dict(m, groups=[list(g) for g in m["groups"]], imports=list(m["imports"])) for m in ms]
+    return [dict(m, groups=[list(g) for g in m["groups"]], imports=list(m["imports"]), fdeps=dict(m.get("fdeps", {})),
+                 ikind=dict(m.get("ikind", {}))) for m in ms]
 
 
 def dec_mod(field):
     from vlib import unhex
+    dh = lambda h: unhex(h).decode("latin-1")
     extra = field.startswith("+")
     nm, rv, im, gs, is_ = field.lstrip("+").split(",")
-    groups = [[(unhex(x.split(":")[0]).decode("latin-1"), x.split(":")[1] == "1") for x in g.split("+")] if g else []
-              for g in gs.split(";")]
-    imports = []
+    groups, fdeps, imports, ikind = [], {}, [], {}
+    for g in gs.split(";"):
+        fs = []
+        for x in (g.split("+") if g else []):
+            q = x.split(":")
+            fs.append((dh(q[0]), q[1] == "1"))
+            if len(q) > 2:
+                fdeps[dh(q[0])] = dh(q[2])
+        groups.append(fs)
     for i in (is_.split("+") if is_ else []):
+        kind = None
+        if "^" in i:
+            i, kind = i.split("^")
         q = i.split("@")
-        imports.append((unhex(q[0]).decode("latin-1"), unhex(q[1]).decode("latin-1") if len(q) > 1 else None))
-    return {"name": unhex(nm).decode("latin-1"), "rev": None if rv == "-" else unhex(rv).decode("latin-1"), "impl": im == "1",
-            "groups": groups, "imports": imports, "extra": extra}
+        imports.append((dh(q[0]), dh(q[1]) if len(q) > 1 else None))
+        if kind:
+            ikind[dh(q[0])] = kind
+    return {"name": dh(nm), "rev": None if rv == "-" else dh(rv), "impl": im == "1",
+            "groups": groups, "imports": imports, "extra": extra, "fdeps": fdeps, "ikind": ikind}
 
 
 def obs_of(m):
@@ -427,9 +442,87 @@ def gen_multirev(rng, pinned_only=True):
     return recs
 
 
+ENABLE_IMP = 0x100
+ALL_IMPL = 0x01
+REF_IMPL = 0x02
+PREFER_SD = 0x20
+
+
+def add_feature_deps(rng, ms, p=0.35):
+    """if-feature dependencies between features of one (sub)module; the enabled sets are closed under them"""
+    for m in ms:
+        fd = m.setdefault("fdeps", {})
+        for g in m["groups"]:
+            for k in range(1, len(g)):
+                if rng.random() < p:
+                    fd[g[k][0]] = g[rng.randrange(k)][0]
+        close_enabled(m)
+    return ms
+
+
+def close_enabled(m):
+    fd = m.get("fdeps", {})
+    changed = True
+    while changed:
+        changed = False
+        for g in m["groups"]:
+            en = dict(g)
+            for k, (f, e) in enumerate(g):
+                if not e and any(en.get(x) and fd.get(x) == f for x in en):
+                    g[k] = (f, True)
+                    changed = True
+
+
+def closed_subset(rng, m):
+    """a feature list for lys_set_features that respects the if-feature dependencies"""
+    fd = m.get("fdeps", {})
+    names = [f for g in m["groups"] for f, _ in g]
+    pick = set(f for f in names if rng.random() < 0.5)
+    for _ in range(len(names)):
+        pick |= set(fd[f] for f in pick if f in fd)
+    return [f for f in names if f in pick]
+
+
+def add_dependencies(rng, ms, p_aug=0.3, p_dev=0.2):
+    """some imports also augment / deviate the imported module (which the library then implements)"""
+    deviated = set()
+    for m in ms:
+        ik = m.setdefault("ikind", {})
+        for n, r in m["imports"]:
+            x = rng.random()
+            if x < p_aug:
+                ik[n] = "a"
+            elif x < p_aug + p_dev and n not in deviated:
+                ik[n] = "d"
+                deviated.add(n)
+    return ms
+
+
+def pre_spec(rng, m):
+    r = rng.random()
+    if r < 0.35:
+        return "*"
+    if r < 0.5:
+        return "~"
+    if r < 0.65:
+        return "-"
+    fs = closed_subset(rng, m)
+    return "+".join(hexs(f) for f in fs) if fs else "-"
+
+
+def pre_ops(rng, ms, n=None, extras=True):
+    cand = [j for j, m in enumerate(ms) if extras or not m.get("extra")]
+    ops = []
+    for _ in range(n or rng.choice([1, 1, 2, 3])):
+        j = rng.choice(cand)
+        ops.append("P:%d:%s" % (j, pre_spec(rng, ms[j])))
+    return ops
+
+
 class YlRoundTrip(Comp):
     """yang-library entries of generated contexts vs YangLib.describe; records of the context rebuilt by
-    ly_ctx_new_ylmem from the printed JSON data with the same sources vs YangLib.rebuild"""
+    ly_ctx_new_ylmem from the printed JSON data with the same sources vs YangLib.rebuild - into an empty context and
+    into one populated before by ly_ctx_load_module calls (P fields; YangLib.preload)"""
     name = "ylrt"
     driver = "t_yl"
     slice = "yl"
@@ -438,16 +531,25 @@ class YlRoundTrip(Comp):
         w = out.split(" # ")[0].split(" ")
         if len(w) >= 3 and w[2] != "0":
             w[2] = "E"
+            w[3:] = ["-"]
         return " ".join(w)
 
     def gen(self, rng, tier, scale=1.0):
         L = []
         for ms in fixed_sets():
             L.append(line_of("ylrt", 0, ms))
-        for _ in range(self.n(tier, 600, 10000, scale)):
-            L.append(line_of("ylrt", 0, gen_set(rng)))
-        for _ in range(self.n(tier, 300, 5000, scale)):
+        # the populated-context regression (seeded change C19-1): m2 is implemented with c enabled before the rebuild,
+        # its entry lists no feature
+        fs = fixed_sets()
+        L.append("\t".join(["ylrt", "0", "P:1:*"] + [enc_mod(m) for m in fs[1]]))
+        L.append("\t".join(["ylrt", "0", "P:1:*", "P:0:-"] + [enc_mod(m) for m in fs[0]]))
+        for _ in range(self.n(tier, 400, 8000, scale)):
+            L.append(line_of("ylrt", 0, add_feature_deps(rng, gen_set(rng), 0.2)))
+        for _ in range(self.n(tier, 200, 4000, scale)):
             L.append(line_of("ylrt", 0, gen_multirev(rng)))
+        for _ in range(self.n(tier, 400, 8000, scale)):
+            ms = gen_multirev(rng) if rng.random() < 0.25 else add_feature_deps(rng, gen_set(rng), 0.2)
+            L.append("\t".join(["ylrt", "0"] + pre_ops(rng, ms) + [enc_mod(m) for m in ms]))
         return L
 
 
